@@ -1093,6 +1093,18 @@ def pkcs8_light(case, ctx):
         ctx.check(ret != 1, "sm2_private_key_info_decrypt_from_der opens a key encrypted under %s with the wrong password %s" % (pw.hex(), w.hex()), "pkcs8/wrong-password-accepted")
         ctx.check(dbytes not in o.raw(), "private key present in the output after a failed decryption", "pkcs8/wrong-password-key-leaked")
     ctx.case(nontrivial=True, classes=["wrong-password"], ident=[case, "wrong"], n=len(wrongs))
+    # the PLAINTEXT inside the encryption is an encoding too: a PrivateKeyInfo followed by more bytes, or with a non-minimal length, encrypted
+    # correctly under the right password, must not open (it could not be re-encoded to the same bytes)
+    inner_mutants = [("trailing-00", inner + b"\x00"), ("trailing-null", inner + b"\x05\x00"), ("trailing-16", inner + blob(16, 1, case["seed"])),
+                     ("trailing-90", inner + blob(90, 2, case["seed"])), ("trailing-copy", inner + inner)]
+    if inner[1] < 0x80:
+        inner_mutants.append(("long-form-length", inner[:1] + b"\x81" + inner[1:]))
+    lab, alt = inner_mutants[case["seed"] % len(inner_mutants)]
+    alt_ref = ref_enced(salt, it, keylen, prf, iv, sm4_cbc_pad_encrypt(l, key, iv, alt))
+    (ret, consumed, left, vv), o = open_(alt_ref, pw)
+    ctx.case(nontrivial=True, classes=["inner:" + lab], ident=[case, "inner", lab])
+    ctx.check(ret != 1, "sm2_private_key_info_decrypt_from_der opens an EncryptedPrivateKeyInfo whose decrypted content is a PrivateKeyInfo %s (%d bytes instead of %d)" %
+              (lab, len(alt), len(inner)), "pkcs8/inner-" + ("trailing-accepted" if lab.startswith("trailing") else lab + "-accepted"))
     # a flipped ciphertext / iv / salt bit must not yield the key either
     t = D.parse_one(ref)
     for lab, node in (("enced", t.find(1)), ("iv", t.find(0, 1, 1, 1)), ("salt", t.find(0, 1, 0, 1, 0))):
